@@ -7,6 +7,7 @@ func init() { props["C05"] = checkC05 }
 func checkC05(r *Run) {
 	r.Explain = "C05: (R1) createBlockFromTxns keeps a pending transaction only if it passed hard+soft verification with the block-creation parameters, then sorts by fee (computed at the head time), truncates to the configured block size, caps at MaxBlockTransactions and builds the block from exactly that list; (R2) the order is fee-per-kB descending with ties by ascending hash, Swap permutes the three parallel slices together, the priority is fee*1024/size with saturation; (R3) TruncateBytesTo keeps the longest prefix whose checked running size stays within the limit; (R4) when pending transactions conflict the later one in that order is dropped (all pairs examined), and NewBlock re-verifies header and transactions of what it built."
 	r.NotDec = "acceptance by an independent follower for concrete pools (follows structurally from C01/C02/C04 rules on the same functions)"
+	ruleMathutilIdioms(r, "C05-R3")
 	ruleNoCrossedConfig(r, "C05-R0")
 	ruleChainConfigPassthrough(r, "C05-R4")
 	const f = "visor.Visor.createBlockFromTxns"
